@@ -356,6 +356,15 @@ def run(ctx):
                 ctx.case((setting, kind, n))
                 ctx.violation("projection|pair|%s|%s" % (kind, setting), "supercell %s: %s" % (setting, ex), None)
                 continue
+            except Exception as ex:      # noqa: BLE001 -- a legal public call of the history raised
+                import traceback
+                where = [f.name for f in traceback.extract_tb(ex.__traceback__) if "onsager" in f.filename]
+                ctx.case((setting, kind, n))
+                ctx.violation("history|%s|%s|%s|%s" % (where[-1] if where else "?", type(ex).__name__, kind, fam),
+                              "supercell %s: building a %s pair through legal public calls (setocc / item assignment / "
+                              "group multiplication / reorder with a proper permutation / copy) raised %s: %s" % (
+                                  setting, kind, type(ex).__name__, ex), {"setting": setting, "kind": kind})
+                continue
             pairs.append({"a": sa, "b": sb, "res": res, "after": after, "via": v})
             pmeta.append(kind)
         cases.append({"w": ow, "S": S.tolist(), "sites": sites, "nchem": int(sup0.Nchem), "ops": ops, "pairs": pairs})
